@@ -28,7 +28,7 @@ META = {
                 "csr.bus.Multiplexer.elaborate", "csr.reg.Bridge.elaborate", "wishbone.sram.WishboneSRAM.elaborate",
                 "csr.event.EventMonitor.elaborate", "gpio.Peripheral.elaborate", "memory.MemoryMap.add_window",
                 "memory.MemoryMap.window_patterns", "memory.MemoryMap.all_resources", "memory.MemoryMap.decode_address"],
-    "also": "zero-width leaf registers; registers added to a map after its multiplexer object exists; decoders whose windows are all explicit and added from the top address down; finding D4's unbalanceable layout behind a decoder; a warm-up instance elaborated first",
+    "also": "zero-width leaf registers; registers added to a map after its multiplexer object exists; decoders whose windows are all explicit and added from the top address down; finding D4's unbalanceable layout behind a decoder; a warm-up instance elaborated first; partly built decoders inspected and elaborated between add() calls; a 10-bit register file with registers above address 256",
     "bounds": "CSR roots: csr.Decoder (addr width 5-8, data width 8/16, alignment 0-4) over 1-3 windows, each a stub-"
               "register multiplexer (1-3 registers, unaligned / padded), a register bridge, an event monitor (1-24 "
               "events), a GPIO peripheral or a nested decoder (depth <= 3); named/anonymous, implicit / explicit "
@@ -91,12 +91,31 @@ def _leaf(spec, dw, top, path):
             if w.get("align_to") is not None:
                 dec.align_to(w["align_to"])
             dec.add(bus, name=((f"n{i}",) if w.get("named") else None), addr=w.get("addr"))
+            _inspect(dec)
         top.submodules["_".join(path)] = dec
         return dec.bus, stubs
     raise ValueError(k)
 
 
+_INSPECT = [False]
+
+
+def _inspect(dec):
+    """read-only use of a partly built decoder between two add() calls: print its address map, look something up,
+    elaborate it (a partial system is simulated) - none of which may change what is built in the end"""
+    if not _INSPECT[0]:
+        return
+    from amaranth.hdl import Fragment
+    mm = dec.bus.memory_map
+    list(mm.window_patterns())
+    list(mm.windows())
+    list(mm.all_resources())
+    mm.decode_address(0)
+    Fragment.get(dec, None)
+
+
 def _build(cfg):
+    _INSPECT[0] = bool(cfg.get("inspect"))
     top = Module()
     if cfg["root"] == "csr":
         bus, stubs = _leaf(cfg["tree"], cfg["dw"], top, ("root",))
@@ -122,6 +141,7 @@ def _build(cfg):
         if w.get("align_to") is not None:
             dec.align_to(w["align_to"])
         dec.add(sub, name=((f"n{i}",) if w.get("named") else None), addr=w.get("addr"))
+        _inspect(dec)
     top.submodules.wbdec = dec
     return top, dec.bus, stubs, srams
 
@@ -277,7 +297,17 @@ def configs(tier, seed):
             Fragment.get(top, None)        # layouts the multiplexer refuses are not part of the family
         except ValueError:
             continue
+        if len(out) % 3 == 1:
+            cfg["inspect"] = True          # the partly built decoders are inspected / elaborated between the add() calls
         out.append(cfg)
+    # a large register file (local addresses far above 256, up to the last one) next to a small one
+    big = {"k": "mux", "aw": 10, "align": 0, "ov": None,
+           "regs": [{"w": 16, "acc": "rw", "addr": 0x101}, {"w": 8, "acc": "r", "addr": 0x200}, {"w": 8, "acc": "rw", "addr": 0x3ff}]}
+    out.append({"root": "csr", "dw": 8, "tree": {"k": "dec", "aw": 12, "align": 0,
+                                                 "wins": [{"node": {"k": "bridge", "aw": 3, "widths": [8, 12]}, "named": True},
+                                                          {"node": big, "named": False}]}})
+    out.append({"root": "wb", "dw": 32, "gran": 8, "aw": 10, "align": 0,
+                "wins": [{"k": "csr", "tree": big, "named": True}, {"k": "sram", "size": 16, "writable": True, "named": False}]})
     for ov in (0, 1):
         cfg = {"root": "csr", "dw": 8, "tree": {"k": "dec", "aw": 6, "align": 0,
                                                 "wins": [{"node": dict(d4, ov=ov), "named": True},
